@@ -435,8 +435,8 @@ class IterNode(tp.Generic[FrameOrSeries]):
         apply_constructor: tp.Callable[..., tp.Union[Frame, Series]]
 
         if self._apply_type is IterNodeApplyType.SERIES_ITEMS:
-            if isinstance(self._container, Frame) and kwargs['axis'] == 0:
-                index_constructor = self._container._columns.from_labels
+            if self._container._NDIM == 2 and kwargs['axis'] == 0: # a Frame or a Quilt
+                index_constructor = self._container._columns.from_labels #type: ignore
             else:
                 index_constructor = self._container._index.from_labels
             # always return a Series
